@@ -289,6 +289,7 @@ class Executor(object):
                 stack.extend(x.children())
         r = frozenset(out)
         self.varsets[k] = r
+        pin(t)
         return r
 
     def feasible(self, pc, c):
@@ -310,6 +311,7 @@ class Executor(object):
             res = sv.check()
             r = (res != z3.unsat)
             self.feas_cache[key] = r
+            pin(c, *pc)
         return r
 
     def implied_const(self, st, v, w, sg):
@@ -318,6 +320,7 @@ class Executor(object):
             return None
         t = tobv(v, w)
         key = ('ic', tuple(x.get_id() for x in st.pc), t.get_id())
+        pin(t, *st.pc)
         if key in self.feas_cache:
             return self.feas_cache[key]
         self.stats['feas_queries'] += 2
